@@ -27,6 +27,11 @@ CLAIMED = {
          "For every generated message program the check enumerates EVERY byte offset at which the destination can start failing (complete for that program) and injects producer failures; the programs themselves are sampled by rapid, so the guarantee is exhaustive per shape and statistical across shapes.",
          "Sinks obey the io.Writer contract and keep failing once they failed; shapes limited to 0..3 parts, 0..2 embeds, 0..2 attachments with contents <= 90 bytes.",
          "DESIGN.md section 3, C12"),
+ "C18": ("exploration",
+         "rapid-generated long/multi-word header values, address lists, file names, bodies around the 57/76 wrapping points and adversarial producer chunkings; oracle: raw-line lint (CRLF, no bare CR/LF, <= 76 encoded body lines, <= 78 header lines unless unfoldable), unfold/decode == value set, metamorphic equality across chunkings",
+         "Generated-input search with a line-discipline lint, a round trip on folded values and a metamorphic relation over producer chunkings; all sampled.",
+         "Header lines > 78 with a folding opportunity inside MIME *part* headers (written through multipart.CreatePart) are a recorded known finding (part-header-unfolded), excluded by signature and counted; the 78 rule is enforced without exception on top-level header sections, all other rules on all sections and bodies.",
+         "DESIGN.md section 3, C18"),
 }
 
 NOT_YET = "check not built yet (work in progress; planned in DESIGN.md section 3)"
